@@ -440,6 +440,10 @@ class ParserMaps:
     def _statement(self):
         it, links, els = self._chain("parse_statement")
         self.statement_fn = it
+        # the subject operand: the first binding initialised from parse_term (by role, whatever the local is called)
+        subj = [s_ for s_ in strip(it["body"])["stmts"] if s_["k"] == "Let" and s_["pat"]["k"] == "Binding" and s_.get("init") is not None
+                and hir.find_calls(s_["init"], "parse_term")]
+        self.subject_name = subj[0]["pat"]["name"] if subj else "subject"
         for fp, br, c in links:
             fld = table_field(fp)
             self._check_skip("parse_statement", fld, br)
@@ -509,10 +513,15 @@ class FoldMaps:
         self.term = {}
         self.order = {}
         f = ctx.facts
-        for fname, subject in (("fold_atom", ("prefix",)), ("fold_compound", ("connecter",)),
-                               ("fold_statement", ("copula",)), ("fold_set", ("left_bracket", "right_bracket"))):
+        # the value each first-match chain compares, by PARAMETER POSITION: fold_atom(folder, prefix, name), fold_compound(folder, connecter,
+        # terms), fold_statement(folder, subject, copula, predicate), fold_set(folder, left, right, terms)
+        for fname, spos, arity in (("fold_atom", (1,), 3), ("fold_compound", (1,), 3), ("fold_statement", (2,), 4), ("fold_set", (1, 2), 4)):
             it = f.hir_fn(fname, module="lexical_fold::impl_enum")
             ctx.fn(it)
+            pnames = [p_.get("name") for p_ in it["params"]]
+            if len(pnames) != arity:
+                raise AnchorMissing("%s with %d parameters" % (fname, arity))
+            subject = tuple(pnames[i] for i in spos)
             chains = find_chains(it, "eq", 2)
             if len(chains) != 1:
                 raise AnchorMissing("first-match chain in %s (%d found)" % (fname, len(chains)))
